@@ -167,9 +167,11 @@ def execute(scenario):
         probe("rate_given")
     if kw.get("folds"):
         probe("folds_used")
+    if tb.get("freq") == "H6":
+        probe("intraday_tables")
     if window > 10 and (scenario.get("fold") == "test" or kw.get("start")) and stats["steps"] >= 2:
         probe("long_window_mid_data_start")
-    trace = "{}|w{}|s{}|{}|{}|sp{}|f{}|{}{}|c{}".format(",".join(sorted(tb["faults"])), window, stride, kw.get("transformer"), kw.get("calendar"),
+    trace = "{}{}|w{}|s{}|{}|{}|sp{}|f{}|{}{}|c{}".format(tb.get("freq"), ",".join(sorted(tb["faults"])), window, stride, kw.get("transformer"), kw.get("calendar"),
                                                        kw.get("spread"), scenario.get("fold"), int("start" in kw), int("end" in kw), kw.get("clip"))
     faults = {f: 1 for f in tb["faults"]}
     return {"violations": violations, "digest": core.digest(xy.log_digestable(recs)), "probes": probes, "faults": faults,
